@@ -8,6 +8,7 @@ import contextlib
 import io
 import multiprocessing as mp
 import os
+import re
 import signal
 import sys
 import textwrap
@@ -18,6 +19,9 @@ import common
 
 class Budget(BaseException):
     pass
+
+
+_ADDR = re.compile(r" at 0x[0-9a-fA-F]+")  # object addresses in reprs differ from run to run
 
 
 class World:
@@ -44,7 +48,7 @@ class Stub:
         self._w.tick()
         if op not in ("call", "setattr", "setitem", "enter", "exit"):
             return
-        self._w.log.append((self._n, op, tuple(repr(x)[:40] if not isinstance(x, Stub) else x._n for x in a)))
+        self._w.log.append((self._n, op, tuple(_ADDR.sub(" at 0x", repr(x))[:40] if not isinstance(x, Stub) else x._n for x in a)))
 
     def __call__(self, *a, **k):
         self._rec("call", *a, *sorted(k.items(), key=str))
